@@ -117,7 +117,11 @@ def run(ctx):
             loads = any(isinstance(x, ast.Call) and
                         U.call_dotted(x) == 'safe_yaml.load'
                         for b in t.body for x in ast.walk(b))
-            conv = any(any('YAMLError' in z for z in U.handler_types(h)) and
+            # the base class of everything the YAML reader / scanner /
+            # parser raises (ReaderError is not a MarkedYAMLError)
+            conv = any(any(z.split('.')[-1] in ('YAMLError', 'Exception',
+                                                'BaseException')
+                           for z in U.handler_types(h)) and
                        any(isinstance(x, ast.Raise) and x.exc is not None and
                            'DSLParsingException' in norm(x.exc)
                            for x in ast.walk(h)) for h in t.handlers)
@@ -458,8 +462,50 @@ def run(ctx):
         raise AnalysisError('C14.R8: escape analysis lost the raise sites '
                             '(%d)' % total)
 
+    # ---- R9 the workbook text slicer only ever adds lines ----------------------------------
+    r9 = ctx.rule('R9', 'the text of a workbook member is built by '
+                  'appending source lines: nothing collected is removed or '
+                  'filtered afterwards', 'WMW (accumulator)')
+    pf = prog.func(PARSER + '._parse_def_from_wb')
+    rets = [x for x in own_nodes(pf.node) if isinstance(x, ast.Return)]
+    acc = None
+    for r_ in rets:
+        for c in ast.walk(r_.value):
+            if isinstance(c, ast.Call) and U.call_name(c) == 'join' and \
+                    c.args and isinstance(c.args[0], ast.Name):
+                acc = c.args[0].id
+    if acc is None:
+        raise AnalysisError('C14.R9: accumulator of _parse_def_from_wb')
+    muts = []
+    for x in own_nodes(pf.node):
+        if isinstance(x, ast.Call) and isinstance(x.func, ast.Attribute) \
+                and dotted(x.func.value) == acc and \
+                x.func.attr not in ('append',):
+            muts.append(norm(x))
+        if isinstance(x, ast.Delete) and any(
+                acc in U.names_in(t) for t in x.targets):
+            muts.append(norm(x))
+        if isinstance(x, (ast.Assign, ast.AugAssign)):
+            tg = x.targets if isinstance(x, ast.Assign) else [x.target]
+            for t in tg:
+                if isinstance(t, ast.Subscript) and dotted(t.value) == acc:
+                    muts.append(norm(x))
+                if isinstance(t, ast.Name) and t.id == acc and not (
+                        isinstance(x, ast.Assign) and
+                        isinstance(x.value, ast.List) and not x.value.elts):
+                    muts.append(norm(x))
+    r9.check(not muts, ctx.construct(pf, extra='append-only'),
+             'lines already collected for a workbook member are removed / '
+             'rewritten (%s): the stored definition text differs from what '
+             'was written in the workbook (a trailing "# ..." line inside a '
+             'block scalar is content)' % muts[:2], ctx.loc(pf))
+    r9.check(all(U.phas(r_.value, "''.join(%s)" % acc) for r_ in rets),
+             ctx.construct(pf, extra='returns the joined lines'),
+             'the member text is not the concatenation of the collected '
+             'lines', ctx.loc(pf))
+
     # ---- R5 regular expressions (thorough) ---------------------------------------------------
-    if ctx.tier == 'thorough':
+    if True:   # cheap (0.1 s): part of the quick tier since round three
         r5 = ctx.rule('R5', 'regular expressions applied to definition '
                       'text have no exponential-backtracking shape', 'regex')
         regexes = collect_regexes(prog)
@@ -504,26 +550,114 @@ def collect_regexes(prog):
                 for k, p in v.items():
                     if isinstance(p, str):
                         out[m + '.ACTION_PATTERNS[%s]' % k] = p
-    # assembled patterns (expr.patterns is built from the registered
-    # evaluators: inline YAQL and Jinja patterns)
+    # assembled patterns: every module-level `NAME = re.compile(<expr>)` of
+    # these modules is evaluated from its own source (string formatting,
+    # joins over constant lists / dict values, and the table of inline
+    # expression patterns of the registered evaluators)
+    for m in mods:
+        if m not in prog.modules:
+            continue
+        for name, node in prog.module_assigns.get(m, {}).items():
+            if isinstance(node, ast.Call) and \
+                    (dotted(node.func) or '') == 're.compile' and node.args:
+                v = _regex_value(prog, m, node.args[0])
+                if isinstance(v, str):
+                    out[m + '.' + name] = v
+                else:
+                    raise AnalysisError('C14.R5: %s.%s = re.compile(...) '
+                                        'could not be evaluated from its '
+                                        'source' % (m, name))
+    return out
+
+
+def _evaluator_patterns(prog):
+    """{name: pattern} as mistral.expressions.patterns is built: the
+    find_expression_pattern of every evaluator registered under the entry
+    point group mistral.expression.evaluators, sorted by name."""
+    from mstatic.core import entry_points
+    eps = entry_points(prog.root if hasattr(prog, 'root') else '/repo')
+    grp = eps.get('mistral.expression.evaluators', {})
+    out = {}
+    for name in sorted(grp):
+        target = grp[name].replace(':', '.')
+        k, node = prog.class_attr(target, 'find_expression_pattern')
+        if not (isinstance(node, ast.Call) and
+                (dotted(node.func) or '') == 're.compile' and node.args):
+            raise AnalysisError('C14.R5: find_expression_pattern of %s'
+                                % target)
+        mod = target.rsplit('.', 1)[0]
+        v = _regex_value(prog, k.rsplit('.', 1)[0] if k else mod,
+                         node.args[0])
+        if not isinstance(v, str):
+            raise AnalysisError('C14.R5: pattern of %s does not fold'
+                                % target)
+        out[name] = v
+    if len(out) < 2:
+        raise AnalysisError('C14.R5: inline expression evaluators not found')
+    return out
+
+
+def _regex_value(prog, module, e, depth=0):
+    """Value of a string-building expression, or None."""
+    if depth > 8:
+        return None
     try:
-        y = prog.const('mistral.expressions.yaql_expression',
-                       'INLINE_YAQL_REGEXP')
-        j = prog.const('mistral.expressions.jinja_expression',
-                       'JINJA_REGEXP')
-        expression = '|'.join([j, y])
-        parts = [prog.const(BASE, n) for n in (
-            '_ALL_IN_QUOTES', '_ALL_IN_APOSTROPHES')] + [expression] + [
-            prog.const(BASE, n) for n in ('_ALL_IN_BRACKETS', '_TRUE',
-                                          '_FALSE', '_NULL', '_DIGITS')]
-        out[BASE + '.PARAMS_PTRN'] = r"([-_\w]+)=(%s)" % "|".join(parts)
-        ap = prog.const(BASE, 'ACTION_PATTERNS')
-        out[BASE + '.CMD_PTRN'] = "^({})".format("|".join(ap.values()))
-        out['mistral.lang.v2.tasks.WITH_ITEMS_PTRN'] = \
-            r"\s*([\w\d_\-]+)\s*in\s*(\[.+\]|%s)" % '|'.join([j, y])
+        return prog.eval_const(module, e)
     except NotConst:
         pass
-    return out
+    rv = lambda x: _regex_value(prog, module, x, depth + 1)  # noqa: E731
+    if isinstance(e, ast.Name):
+        node = prog.module_assigns.get(module, {}).get(e.id)
+        return rv(node) if node is not None else None
+    if isinstance(e, ast.BinOp) and isinstance(e.op, ast.Mod):
+        left, right = rv(e.left), rv(e.right)
+        if isinstance(left, str) and right is not None:
+            try:
+                return left % (tuple(right) if isinstance(right, list)
+                               else right)
+            except (TypeError, ValueError):
+                return None
+        return None
+    if isinstance(e, ast.BinOp) and isinstance(e.op, ast.Add):
+        left, right = rv(e.left), rv(e.right)
+        if type(left) is type(right) and left is not None:
+            return left + right
+        return None
+    if isinstance(e, (ast.List, ast.Tuple)):
+        vals = [rv(x) for x in e.elts]
+        return None if any(v is None for v in vals) else vals
+    if isinstance(e, ast.Call) and isinstance(e.func, ast.Attribute):
+        if e.func.attr == 'join' and len(e.args) == 1:
+            sep, items = rv(e.func.value), rv(e.args[0])
+            if isinstance(sep, str) and isinstance(items, list) and \
+                    all(isinstance(x, str) for x in items):
+                return sep.join(items)
+            return None
+        if e.func.attr == 'format':
+            tpl = rv(e.func.value)
+            args = [rv(a) for a in e.args]
+            if isinstance(tpl, str) and all(isinstance(a, str)
+                                            for a in args):
+                try:
+                    return tpl.format(*args)
+                except (IndexError, KeyError, ValueError):
+                    return None
+            return None
+        if e.func.attr == 'values' and not e.args:
+            d = rv(e.func.value)
+            return list(d.values()) if isinstance(d, dict) else None
+    if isinstance(e, ast.ListComp) and len(e.generators) == 1:
+        # [<mod>.patterns[name] for name in <mod>.patterns]
+        g = e.generators[0]
+        it = dotted(g.iter) or ''
+        if it.endswith('.patterns') and isinstance(e.elt, ast.Subscript) \
+                and dotted(e.elt.value) == it and \
+                norm(e.elt.slice) == norm(g.target) and not g.ifs:
+            tgt = prog.resolve_dotted(module, it)
+            if tgt == 'mistral.expressions.patterns':
+                pats = _evaluator_patterns(prog)
+                return [pats[k] for k in pats]
+    return None
 
 
 def nested_unbounded(pattern):
@@ -539,11 +673,30 @@ def nested_unbounded(pattern):
     def unbounded(op, av):
         return op in (MAX_REPEAT, MIN_REPEAT) and av[1] == MAXREPEAT
 
+    def nullable(item):
+        op, av = item
+        if op in (MAX_REPEAT, MIN_REPEAT):
+            return av[0] == 0 or all(nullable(x) for x in av[2])
+        if op == SUBPATTERN:
+            return all(nullable(x) for x in av[3])
+        if op == BRANCH:
+            return any(all(nullable(x) for x in alt) for alt in av[1])
+        return False
+
     def strip(seq):
-        """sole element of a sequence through groups"""
+        """sole non-optional element of a sequence, through groups:
+        `(?:\\w+-?)` is `\\w+` as far as ambiguity is concerned (the optional
+        tail lets one iteration end anywhere inside a run of word
+        characters)"""
         items = list(seq)
-        while len(items) == 1 and items[0][0] == SUBPATTERN:
-            items = list(items[0][1][3])
+        while True:
+            solid = [x for x in items if not nullable(x)]
+            if len(solid) == 1 and len(items) > 1:
+                items = solid
+            if len(items) == 1 and items[0][0] == SUBPATTERN:
+                items = list(items[0][1][3])
+                continue
+            break
         return items
 
     def walk(seq):
